@@ -11,5 +11,6 @@ CONSTANTS
   Dev_NoDivisionGuard = FALSE
   Dev_CondSameTypeNoPromotion = FALSE
   Dev_BareAddressMinusRejected = FALSE
+  Dev_SwapReassocClobbers = FALSE
 INVARIANTS Inv_Judge
 CHECK_DEADLOCK FALSE
